@@ -2,7 +2,7 @@
    Directives: those of ExtrOcamlBasic (bool, option, unit, list, prod, sumbool, ...)
    and ExtrOcamlString (ascii -> char, string -> char list).  No Extract Constant of
    our own; nat stays the unary inductive type. *)
-From PMC Require Import Model.Fair Model.BExp Model.Parse.
+From PMC Require Import Model.Fair Model.Memo Model.BExp Model.Parse.
 From Coq Require Import ExtrOcamlBasic ExtrOcamlString.
 Extraction "model.ml"
   mk_graph subgraph reversed clone reach_r add_node_r add_edge_r edges sources next_r
@@ -15,6 +15,7 @@ Extraction "model.ml"
   lex parse parse_string
   ctl_modelcheck ltl_modelcheck ctls_modelcheck_in
   ctl_modelcheck_fair ltl_modelcheck_fair ctls_modelcheck_fair
+  ctl_modelcheck_memo ltl_modelcheck_print
   closure dedupf atoms tableau checkE_path fresh_name
   obdd_parse obdd_lambda obdd_apply obdd_neg obdd_restrict obdd_eq collect live_count
   no_dup_triples denote variables print_root pyparse reparse_root descendents lookup.
